@@ -19,7 +19,7 @@ NOT attempted:    footprint_bound — the closed-form bound  footprint ≤ f(pea
                   becomes constant and stays so.
 -/
 import TinyVerif.Proofs.DlStep
-import TinyVerif.Proofs.DlVictim
+import TinyVerif.Proofs.DlFresh
 namespace TinyVerif.Dl
 
 /-! ## footprint_exact / os_balance -/
@@ -170,31 +170,6 @@ theorem unused_segment_released (g : Seg) (rest rest' : List Seg) (s s' : St) (r
     rw [this] at hx2
     cases hx2
 
-
-theorem writeHead_keeps {h h' : Heap} {a size : Nat} {c p : Bool} (hh : writeHead h a size c p = .ok h') :
-    h'.top = h.top ∧ h'.topsize = h.topsize ∧ h'.dv = h.dv ∧ h'.dvsize = h.dvsize ∧ h'.sbins = h.sbins ∧ h'.tbins = h.tbins := by
-  unfold writeHead at hh
-  split at hh
-  · msimp at hh
-  · msimp at hh
-    subst hh
-    exact ⟨rfl, rfl, rfl, rfl, rfl, rfl⟩
-
-theorem init_top_spec {s s' : St} {ptr size : Nat} (h : init_top s ptr size = .ok s') :
-    s'.h.top = ptr + align_offset_usize (ptr + MEM_OFFSET) ∧
-    s'.h.topsize = size - align_offset_usize (ptr + MEM_OFFSET) ∧
-    s'.trim_check = DEFAULT_TRIM_THRESHOLD := by
-  unfold init_top at h
-  dsimp only at h
-  msimp at h
-  obtain ⟨_, _, h1, hw1, h2, hw2, h⟩ := h
-  subst h
-  have k1 := writeHead_keeps hw1
-  have k2 := writeHead_keeps hw2
-  simp only at k1 k2
-  refine ⟨?_, ?_, rfl⟩
-  · show h2.top = _; rw [k2.1, k1.1]
-  · show h2.topsize = _; rw [k2.2.1, k1.2.1]
 
 /-- **trim_fires**: when `top` exceeds the pad by more than a granule, the segment holding `top` is
 not pinned by another segment's record and the OS serves the mremap, `sys_trim`'s first half gives
